@@ -1,6 +1,7 @@
 package main
 
 import (
+	"strconv"
 	"fmt"
 	"go/ast"
 	"go/token"
@@ -22,7 +23,7 @@ func init() {
 			{ID: "C05.R3", Floor: 15, Doc: "explicit panic values reachable from parseFrame implement error", Run: c05r3},
 			{ID: "C05.R4", Floor: 10, Doc: "no explicit panic reachable from public decode entry points without a recover", Run: c05r4},
 			{ID: "C05.R5", Floor: 10, Doc: "consumers of parseFrame results: default / failed-assertion branch does not panic or dereference", Run: c05r5},
-			{ID: "C05.R6", Floor: 1, Doc: "authenticator returned by Challenge is nil-checked before a method is invoked on it", Run: c05r6},
+			{ID: "C05.R6", Floor: 1, Doc: "every method call on a value of the Authenticator interface (the configured one, one returned by Challenge, one kept in an exchange state) is made where the value is known not to be nil", Run: c05r6},
 			{ID: "C05.R9", Floor: 3, Doc: "pointer locals that start nil are assigned or nil-checked on every path before a field is read through them (response handling in the root package)", Run: c05r9},
 			{ID: "C05.R8", Floor: 20, Doc: "goroutine roots census: go statements whose callee parses network data run under recover or reach only rule-checked code", Run: c05r8},
 			{ID: "C05.R10", Floor: 1, Doc: "the header pointer readFrame installs on success is dereferenced only where readFrame is known to have succeeded", Run: c05r10},
@@ -113,7 +114,12 @@ func siteKey(p *Program, fi *FuncInfo, e ast.Expr) string {
 		if k, ok := constInt(info, e); ok {
 			return fmt.Sprint(k)
 		}
-		if c := canon(e, depth); strings.Contains(c, "len(") {
+		c := canon(e, depth)
+		if strings.Contains(c, "len(") {
+			return c
+		}
+		// a local that holds a constant
+		if _, err := strconv.Atoi(c); err == nil {
 			return c
 		}
 		return short(info.TypeOf(e))
